@@ -13,7 +13,7 @@ restore() {
 }
 trap restore EXIT
 for id in "$@"; do
-  out=$(cd /verif && VERIF_OUT=/scratch/seed-out ./check "$id" --tier "$TIER" 2>&1); rc=$?
+  out=$(cd /verif && VERIF_OUT=/scratch/seed-out timeout 900 ./check "$id" --tier "$TIER" 2>&1); rc=$?
   echo "$out" | grep -E "VIOLATION|KNOWN-FINDING|^C[0-9]+ (quick|thorough)|machinery|further violations" | cut -c1-500 | head -6
   echo "[$id exit=$rc]"
 done
